@@ -4,7 +4,7 @@
 //   commands executed through the command() efun are logged as       ecmd <user> =<text>
 // After the log line the script registered for that text (if any) runs:
 //   kick,<u> destruct(u)   drop,<u> remove_interactive(u)   ecmd,<u>,<text> u->force(text) (command() efun)
-//   gc get_char()          it input_to()          itn input_to(.., I_NOECHO)
+//   gc get_char()          it input_to()          itn input_to(.., I_NOECHO)      err error(): uncaught
 #include "/include/vcommon.h"
 
 string oid = "?";
@@ -45,6 +45,7 @@ void logon () {
 
 // buffered line about to be parsed: this is the turn-limited path
 mixed process_input (string s) {
+  in_force = 0;   // an error thrown inside a command() call skipped the decrement in force()
   VL ("cmd " + oid + " " + enc (s));
   return 0;
 }
@@ -61,11 +62,13 @@ int do_cmd (string arg) {
 }
 
 void got_char (string s) {
+  in_force = 0;
   VL ("cmd " + oid + " " + enc (s));
   run (enc (s));
 }
 
 void got_line (string s) {
+  in_force = 0;
   VL ("cmd " + oid + " " + enc (s));
   run (enc (s));
 }
@@ -106,6 +109,10 @@ void do_op (string s) {
   case "it":
     r = input_to ("got_line");
     VL ("it " + (this_player () ? this_player ()->query_oid () : "?") + " " + r);
+    break;
+  case "err":   // uncaught LPC error: longjmp to the top of backend(), the running cycle is aborted
+    VL ("throw " + oid);
+    error ("c12-throw\n");
     break;
   default:
     VL ("badop " + s);
